@@ -214,7 +214,7 @@ class LinearGaussianCPD(BaseFactor):
         ['X1', 'X2', 'X3']
         """
         copy_cpd = LinearGaussianCPD(
-            self.variable, self.beta, self.variance, list(self.evidence)
+            self.variable, self.mean.copy(), self.variance, list(self.evidence)
         )
 
         return copy_cpd
